@@ -531,4 +531,244 @@ theorem step_shape {f : ListFormatting} {rc : Rc} {ind : List Char} {sp : Separa
       obtain ⟨h1, h2, h3⟩ := this
       exact ⟨h1, h2, inner, rfl, by simpa [mkEnv] using h3⟩
 
+/-! ### The loop -/
+
+/-- The non-blank pieces of the whole result, item by item (from index `i` on): a skipped item
+contributes nothing; a written one its block (`blockTokens`): pre-comment, separator in front, the item,
+post-comment and separator behind. -/
+inductive TokensOK (f : ListFormatting) (rc : Rc) (sp : SeparatorPlace) :
+    Nat → List ListItem → List Piece → Prop where
+  | nil (i : Nat) : TokensOK f rc sp i [] []
+  | skip {i : Nat} {item : ListItem} {rest : List ListItem} {ts : List Piece} (inner : List Char) :
+      item.item = some inner → item.isSubstantial = false → TokensOK f rc sp (i + 1) rest ts →
+      TokensOK f rc sp i (item :: rest) ts
+  | write {i : Nat} {item : ListItem} {rest : List ListItem} {ts : List Piece} (inner : List Char)
+      (pre post : List Piece) :
+      item.item = some inner → item.isSubstantial = true → PreOK rc item pre → PostOK rc item post →
+      TokensOK f rc sp (i + 1) rest ts →
+      TokensOK f rc sp i (item :: rest) (blockTokens f sp i rest.isEmpty inner pre post ++ ts)
+
+theorem loop_shape {f : ListFormatting} {rc : Rc} {ind : List Char} {sp : SeparatorPlace} :
+    ∀ (items : List ListItem) (i : Nat) (st st' : State),
+      loop f rc ind sp i items st = some st' → TSInv f st →
+      (BlanksOK ind st.pieces → BlanksOK ind st'.pieces) ∧
+        ∃ ts, TokensOK f rc sp i items ts ∧ nonBlank st'.pieces = nonBlank st.pieces ++ ts := by
+  intro items
+  induction items with
+  | nil =>
+    intro i st st' h _
+    simp only [loop, Option.some.injEq] at h
+    subst h
+    exact ⟨id, [], .nil i, by simp⟩
+  | cons item rest ih =>
+    intro i st st' h hinv
+    simp only [loop] at h
+    split at h
+    · simp at h
+    · rename_i st1 hstep
+      obtain ⟨hinv1, hb1, inner, hit, hsub⟩ := step_shape hstep hinv
+      obtain ⟨hb2, ts, hts, hnb⟩ := ih (i + 1) st1 st' h hinv1
+      refine ⟨fun hb => hb2 (hb1 hb), ?_⟩
+      cases hs : item.isSubstantial with
+      | false =>
+        simp only [hs, Bool.false_eq_true, ↓reduceIte] at hsub
+        subst hsub
+        exact ⟨ts, .skip inner hit hs hts, hnb⟩
+      | true =>
+        simp only [hs, ↓reduceIte] at hsub
+        obtain ⟨pre, post, hpre, hpost, hnb1⟩ := hsub
+        exact ⟨_, .write inner pre post hit hs hpre hpost hts, by rw [hnb, hnb1, List.append_assoc]⟩
+
+theorem tsInv_init (f : ListFormatting) : TSInv f (State.init f) := Or.inl rfl
+
+/-- The shape of `write_list`'s result. -/
+theorem writeListPieces_shape {f : ListFormatting} {rc : Rc} {items : List ListItem} {ps : List Piece}
+    (h : writeListPieces f rc items = some ps) :
+    BlanksOK (indentString f.shape.indent f.config) ps ∧
+      TokensOK f rc (SeparatorPlace.fromTactic f.separatorPlace f.tactic f.separator) 0 items
+        (nonBlank ps) := by
+  unfold writeListPieces at h
+  simp only [Option.map_eq_some_iff] at h
+  obtain ⟨st', hloop, rfl⟩ := h
+  obtain ⟨hb, ts, hts, hnb⟩ := loop_shape items 0 _ st' hloop (tsInv_init f)
+  refine ⟨hb (by simp [State.init]), ?_⟩
+  simpa [hnb, State.init] using hts
+
+/-- An item whose rewrite failed makes the loop fail. -/
+theorem loop_none_of_missing {f : ListFormatting} {rc : Rc} {ind : List Char} {sp : SeparatorPlace} :
+    ∀ (items : List ListItem) (i : Nat) (st : State),
+      (∃ it ∈ items, it.item = none) → loop f rc ind sp i items st = none := by
+  intro items
+  induction items with
+  | nil => intro i st h; simp at h
+  | cons item rest ih =>
+    intro i st h
+    simp only [loop]
+    cases hstep : step f rc ind sp i item rest st with
+    | none => rfl
+    | some st1 =>
+      simp only
+      obtain ⟨it, hmem, hnone⟩ := h
+      rcases List.mem_cons.mp hmem with rfl | hmem'
+      · simp [step, hnone] at hstep
+      · exact ih (i + 1) st1 ⟨it, hmem', hnone⟩
+
+/-! ### Projections of the token list -/
+
+def itemTexts (ts : List Piece) : List (List Char) := (ts.filter (fun p => p.kind == .item)).map (·.text)
+
+def commentTexts (ts : List Piece) : List (List Char) :=
+  (ts.filter (fun p => p.kind == .pre || p.kind == .post)).map (·.text)
+
+def sepTexts (ts : List Piece) : List (List Char) := (ts.filter (fun p => p.kind == .sep)).map (·.text)
+
+@[simp] theorem itemTexts_append (a b : List Piece) : itemTexts (a ++ b) = itemTexts a ++ itemTexts b := by
+  simp [itemTexts]
+@[simp] theorem commentTexts_append (a b : List Piece) :
+    commentTexts (a ++ b) = commentTexts a ++ commentTexts b := by simp [commentTexts]
+@[simp] theorem sepTexts_append (a b : List Piece) : sepTexts (a ++ b) = sepTexts a ++ sepTexts b := by
+  simp [sepTexts]
+
+theorem preOK_kinds {rc : Rc} {item : ListItem} {ps : List Piece} (h : PreOK rc item ps) :
+    itemTexts ps = [] ∧ sepTexts ps = [] ∧ ∀ p ∈ ps, p.kind = .pre := by
+  unfold PreOK at h
+  split at h
+  · subst h; simp [itemTexts, sepTexts]
+  · obtain ⟨r, _, _, _, rfl⟩ := h; simp [itemTexts, sepTexts]
+
+theorem postOK_kinds {rc : Rc} {item : ListItem} {ps : List Piece} (h : PostOK rc item ps) :
+    itemTexts ps = [] ∧ sepTexts ps = [] ∧ ∀ p ∈ ps, p.kind = .post := by
+  unfold PostOK at h
+  split at h
+  · subst h; simp [itemTexts, sepTexts]
+  · obtain ⟨r, _, _, _, rfl⟩ := h; simp [itemTexts, sepTexts]
+
+theorem sepFront_kinds (f : ListFormatting) (sp : SeparatorPlace) (i : Nat) (last : Bool) :
+    itemTexts (sepFront f sp i last) = [] ∧ commentTexts (sepFront f sp i last) = [] := by
+  unfold sepFront; split <;> simp [itemTexts, commentTexts]
+
+theorem sepBack_kinds (f : ListFormatting) (sp : SeparatorPlace) (i : Nat) (last : Bool) :
+    itemTexts (sepBack f sp i last) = [] ∧ commentTexts (sepBack f sp i last) = [] := by
+  unfold sepBack; split <;> simp [itemTexts, commentTexts]
+
+theorem itemTexts_block {rc : Rc} {item : ListItem} {pre post : List Piece} (f : ListFormatting)
+    (sp : SeparatorPlace) (i : Nat) (last : Bool) (inner : List Char)
+    (hpre : PreOK rc item pre) (hpost : PostOK rc item post) :
+    itemTexts (blockTokens f sp i last inner pre post) = [inner] := by
+  unfold blockTokens
+  have h1 := (preOK_kinds hpre).1
+  have h2 := (postOK_kinds hpost).1
+  have h3 := (sepFront_kinds f sp i last).1
+  have h4 := (sepBack_kinds f sp i last).1
+  split <;> simp only [itemTexts_append, h1, h2, h3, h4, List.nil_append, List.append_nil] <;>
+    simp [itemTexts]
+
+/-- **Items.**  The item pieces are exactly the item strings of the written items, in order. -/
+theorem tokens_items {f : ListFormatting} {rc : Rc} {sp : SeparatorPlace} {i : Nat}
+    {items : List ListItem} {ts : List Piece} (h : TokensOK f rc sp i items ts) :
+    itemTexts ts = itemStrings items := by
+  induction h with
+  | nil i => simp [itemTexts, itemStrings]
+  | skip inner hit hs _ ih => simpa [itemStrings, hs] using ih
+  | write inner pre post hit hs hpre hpost _ ih =>
+    rw [itemTexts_append, itemTexts_block f sp _ _ inner hpre hpost, ih]
+    simp [itemStrings, hs, ListItem.innerAsRef, hit]
+
+/-- The comments of the written items as the caller passed them (pre-comment, then post-comment). -/
+def rawComments (items : List ListItem) : List (List Char) :=
+  (items.filter ListItem.isSubstantial).flatMap fun it => it.preComment.toList ++ it.postComment.toList
+
+/-- `t` is what the rewriter made of `c` (or of `c` without its leading white space). -/
+def Rewritten (rc : Rc) (t c : List Char) : Prop :=
+  ∃ bs sh, rc c bs sh = some t ∨ rc (trimStart c) bs sh = some t
+
+/-- Two lists related element by element (core has no `Forall₂`). -/
+inductive Forall2 {α β : Type} (R : α → β → Prop) : List α → List β → Prop where
+  | nil : Forall2 R [] []
+  | cons {a : α} {b : β} {as : List α} {bs : List β} : R a b → Forall2 R as bs → Forall2 R (a :: as) (b :: bs)
+
+theorem commentTexts_pre {rc : Rc} {item : ListItem} {ps : List Piece} (h : PreOK rc item ps) :
+    Forall2 (Rewritten rc) (commentTexts ps) item.preComment.toList := by
+  unfold PreOK at h
+  split at h
+  · rename_i hc; subst h; simp only [hc, commentTexts, Option.toList]; exact Forall2.nil
+  · rename_i c hc
+    obtain ⟨r, bs, sh, hr, rfl⟩ := h
+    simp only [hc, commentTexts, Option.toList]
+    exact Forall2.cons ⟨bs, sh, Or.inl hr⟩ Forall2.nil
+
+theorem commentTexts_post {rc : Rc} {item : ListItem} {ps : List Piece} (h : PostOK rc item ps) :
+    Forall2 (Rewritten rc) (commentTexts ps) item.postComment.toList := by
+  unfold PostOK at h
+  split at h
+  · rename_i hc; subst h; simp only [hc, commentTexts, Option.toList]; exact Forall2.nil
+  · rename_i c hc
+    obtain ⟨r, bs, sh, hr, rfl⟩ := h
+    simp only [hc, commentTexts, Option.toList]
+    exact Forall2.cons ⟨bs, sh, hr⟩ Forall2.nil
+
+theorem forall₂_append {α β : Type} {R : α → β → Prop} {a1 a2 : List α} {b1 b2 : List β}
+    (h1 : Forall2 R a1 b1) (h2 : Forall2 R a2 b2) : Forall2 R (a1 ++ a2) (b1 ++ b2) := by
+  induction h1 with
+  | nil => simpa using h2
+  | cons h _ ih => exact Forall2.cons h ih
+
+theorem commentTexts_block {pre post : List Piece} (f : ListFormatting)
+    (sp : SeparatorPlace) (i : Nat) (last : Bool) (inner : List Char) :
+    commentTexts (blockTokens f sp i last inner pre post) = commentTexts pre ++ commentTexts post := by
+  unfold blockTokens
+  have h3 := (sepFront_kinds f sp i last).2
+  have h4 := (sepBack_kinds f sp i last).2
+  split <;> simp only [commentTexts_append, h3, h4, List.nil_append, List.append_nil] <;>
+    simp [commentTexts]
+
+/-- **Comments.**  The comment pieces are, one for one and in order, the rewritten comments of the
+written items (pre-comment of an item before its post-comment). -/
+theorem tokens_comments {f : ListFormatting} {rc : Rc} {sp : SeparatorPlace} {i : Nat}
+    {items : List ListItem} {ts : List Piece} (h : TokensOK f rc sp i items ts) :
+    Forall2 (Rewritten rc) (commentTexts ts) (rawComments items) := by
+  induction h with
+  | nil i => simp only [commentTexts, rawComments]; exact Forall2.nil
+  | skip inner hit hs _ ih => simpa [rawComments, hs] using ih
+  | write inner pre post hit hs hpre hpost _ ih =>
+    rename_i i' item rest ts' _
+    rw [commentTexts_append, commentTexts_block f sp _ _ inner]
+    have : rawComments (item :: rest) =
+        (item.preComment.toList ++ item.postComment.toList) ++ rawComments rest := by
+      simp [rawComments, hs]
+    rw [this]
+    exact forall₂_append (forall₂_append (commentTexts_pre hpre) (commentTexts_post hpost)) ih
+
+/-- The separators `write_list` must write, item by item. -/
+def sepSpecGo (f : ListFormatting) (sp : SeparatorPlace) : Nat → List ListItem → List (List Char)
+  | _, [] => []
+  | i, item :: rest =>
+    (if item.isSubstantial then
+      (if separateSpec f sp i rest.isEmpty && sp.isFront && i != 0 then [trim f.separator] else []) ++
+      (if separateSpec f sp i rest.isEmpty && sp.isBack then [f.separator] else [])
+     else []) ++ sepSpecGo f sp (i + 1) rest
+
+theorem sepTexts_block {rc : Rc} {item : ListItem} {pre post : List Piece} (f : ListFormatting)
+    (sp : SeparatorPlace) (i : Nat) (last : Bool) (inner : List Char)
+    (hpre : PreOK rc item pre) (hpost : PostOK rc item post) :
+    sepTexts (blockTokens f sp i last inner pre post) =
+      (if separateSpec f sp i last && sp.isFront && i != 0 then [trim f.separator] else []) ++
+      (if separateSpec f sp i last && sp.isBack then [f.separator] else []) := by
+  unfold blockTokens sepFront sepBack
+  have h1 := (preOK_kinds hpre).2.1
+  have h2 := (postOK_kinds hpost).2.1
+  split <;> split <;> split <;>
+    simp only [sepTexts_append, h1, h2, List.nil_append, List.append_nil] <;> simp [sepTexts]
+
+/-- **Separators.**  The separator pieces are exactly those `separateSpec` demands. -/
+theorem tokens_seps {f : ListFormatting} {rc : Rc} {sp : SeparatorPlace} {i : Nat}
+    {items : List ListItem} {ts : List Piece} (h : TokensOK f rc sp i items ts) :
+    sepTexts ts = sepSpecGo f sp i items := by
+  induction h with
+  | nil i => simp [sepTexts, sepSpecGo]
+  | skip inner hit hs _ ih => simpa [sepSpecGo, hs] using ih
+  | write inner pre post hit hs hpre hpost _ ih =>
+    rw [sepTexts_append, sepTexts_block f sp _ _ inner hpre hpost, ih]
+    simp [sepSpecGo, hs]
+
 end RF.Lemmas.Lists
